@@ -766,6 +766,52 @@ func c04(p *core.Program, r *core.Report) {
 		r.Count("decoded_index_sinks", nidx)
 	}
 
+	// ---- rule 1c: the decoders' recursion is bounded by something other than the input
+	const rule1c = "recursion-depth-bounded"
+	r.Rule(rule1c, "a binary decoder that calls itself for the members of a collection carries a depth: an integer parameter (or a field of a parameter) that is compared with a bound before the recursive call and handed on changed. wkb.Read and ewkb.Read recurse once per nesting level with nothing but the input length to stop them: 9 bytes per level, so a 13 MB string of nested one-member collections overflows the goroutine stack - a fatal error no caller can recover, where the property asks for an error", 2)
+	for _, rel := range []string{"encoding/wkb", "encoding/ewkb"} {
+		fn := mustFn(p, r, rule1c, rel, "Read")
+		if fn == nil {
+			continue
+		}
+		var rec []ssa.CallInstruction
+		for _, c := range eng.Calls(fn) {
+			if eng.StaticCallee(c) == fn {
+				rec = append(rec, c)
+			}
+		}
+		key := short(fn) + "/self-calls"
+		if len(rec) == 0 {
+			r.OK(rule1c, key, p.Pos(fn.Pos()), true, "Read does not call itself")
+			continue
+		}
+		// a depth: an integer parameter that the recursive calls hand on as something other than itself and that
+		// an ordered comparison of the function tests
+		bounded := false
+		for pi, prm := range fn.Params {
+			tb, isB := prm.Type().Underlying().(*types.Basic)
+			if !isB || tb.Info()&types.IsInteger == 0 {
+				continue
+			}
+			changed := true
+			for _, c := range rec {
+				if pi >= len(c.Common().Args) || c.Common().Args[pi] == ssa.Value(prm) {
+					changed = false
+				}
+			}
+			tested := false
+			for _, b := range fn.Blocks {
+				if c, ok := eng.EdgeCmp(b, 0); ok && eng.IsOrderedCmp(c.Op) && (eng.StripConv(c.X) == ssa.Value(prm) || eng.StripConv(c.Y) == ssa.Value(prm)) {
+					tested = true
+				}
+			}
+			if changed && tested {
+				bounded = true
+			}
+		}
+		r.Check(bounded, rule1c, key, p.Pos(rec[0].Pos()), true, "the recursion carries a tested depth", fmt.Sprintf("%s calls itself at %d sites (first: %s) for the members of a collection and carries no depth: the nesting of the input alone decides how deep the stack grows (1.5 million nested one-member collections, 13.5 MB, end in `fatal error: stack overflow`)", short(fn), len(rec), p.Pos(rec[0].Pos())))
+	}
+
 	// ---- rule 2: no explicit panic reachable from the decoder entry points
 	const rule2 = "panic-free-decoders"
 	r.Rule(rule2, "no function reachable in the VTA call graph (plus json reflection edges) from the 21 decoder entry points contains an explicit panic, os.Exit/log.Fatal call or a type assertion without comma-ok", 30)
